@@ -85,6 +85,7 @@ type UpCall struct {
 	Res         int
 	Resp        *OResp
 	ErrKind     string // "" | "err" | "hang-cancel" | "ctx" | "reset-header" | "abort"
+	BodyCancelAt time.Duration // >0: virtual time+1ns at which a read of the response body found the request context ended
 	CancelAt    time.Duration
 	HadDeadline bool
 	Deadline    time.Duration
@@ -1116,7 +1117,7 @@ func (r *Run) exchange(g *kit.Gor, ci, oi int, name string, op *Op) {
 	// a polling client sends one and the same request value again and again; what it means to send is what
 	// it built the first time, whatever the transport may have done to the value in between
 	reuseKey := ""
-	if op.CancelNs == 0 && op.Cond == "" && !op.Poison {
+	if op.CancelNs == 0 && op.Cond == "" && !op.Poison && op.OddURL == "" {
 		reuseKey = fmt.Sprintf("%s|%s|%d|%d|%s|%s|%v", name, method, op.Res, op.Spelling, op.CC, op.CCStyle, op.Range)
 	}
 	var reused *reuseSlot
@@ -1150,6 +1151,10 @@ func (r *Run) exchange(g *kit.Gor, ci, oi int, name string, op *Op) {
 	if err != nil {
 		r.Sim.Event(g, "client.badreq", err.Error())
 		return
+	}
+	if op.OddURL != "" && reused == nil {
+		req.URL, req.Host = oddURL(op.OddURL), ""
+		r.probe("odd-request-url")
 	}
 	if op.EmptyMethod && req.Method == http.MethodGet {
 		req.Method = "" // a request value built as a struct literal: legal, means GET
@@ -1296,6 +1301,28 @@ func (r *Run) exchange(g *kit.Gor, ci, oi int, name string, op *Op) {
 	r.mu.Unlock()
 }
 
+// oddURL: request URLs as callers hand them to a RoundTripper - http.Client passes a URL without scheme or
+// host on (net/http's own transport answers those with an error), a struct-literal URL is not normalised.
+// The path belongs to no resource of the origin, which refuses the connection.
+func oddURL(kind string) *url.URL {
+	switch kind {
+	case "relative":
+		return &url.URL{Path: "/odd/relative"}
+	case "zone":
+		u, _ := url.Parse("http://[fe80::1%25eth0]:8080/odd/zone")
+		return u
+	case "nohost":
+		return &url.URL{Scheme: "http", Path: "/odd/nohost"}
+	case "spacehost":
+		return &url.URL{Scheme: "http", Host: "a b.test", Path: "/odd/spacehost"}
+	case "opaque":
+		return &url.URL{Scheme: "http", Opaque: "odd-opaque"}
+	case "upper":
+		return &url.URL{Scheme: "HTTP", Host: "A.TEST:80", Path: "/odd/upper"}
+	}
+	return &url.URL{}
+}
+
 func hget(h http.Header, k string) string {
 	if h == nil {
 		return ""
@@ -1323,6 +1350,12 @@ func errnoOf(name string) error {
 		return syscall.EMFILE
 	case "EACCES":
 		return syscall.EACCES
+	case "ENOENT":
+		return syscall.ENOENT
+	case "EPERM":
+		return syscall.EPERM
+	case "EXDEV":
+		return syscall.EXDEV
 	}
 	return syscall.EIO
 }
